@@ -1,2 +1,108 @@
-(* C17 placeholder *)
-From MPB Require Import Base.
+(* C17 — A bar queued after another always gets its turn.
+   Statements over every event list accepted by Container.step; proofs in ContainerFlush.v
+   and ContainerProofs.v.
+   KNOWN FINDING (D7, open, known_findings.json): the last sentence of the property does
+   not hold of the code.  [C17_late_successor_refuted] exhibits an accepted run in which
+   the predecessor had left before the successor was created, and
+   [C17_late_successor_never_displayed] proves that such a successor is never promoted in
+   any continuation (Wait then never returns: the bar is never started, never completes);
+   [C17_second_successor_overwrites] is the "however many bars" case: parking a second bar
+   behind the same predecessor drops the first from the queue.  The harness generates
+   successors only while the predecessor is running, one per predecessor, and the
+   directed D7 witnesses are replayed against the code by the check. *)
+From MPB Require Import Base BaseProofs BarState Container ContainerProofs ContainerFlush.
+
+(* not displayed while parked: a parked bar is in none of the places rows are drawn from *)
+Theorem C17_successor_hidden_while_parked : forall p a d evs s pre x,
+  run (init_cst p a d) evs = Some s -> lookup pre (queue s) = Some x ->
+  ~ In x (heap s) /\ ~ In x (popped s) /\ ~ In x (fifo_pushes (fifo s)) /\ ~ In x (ph_pushes (ph s)) /\ ~ In x (retired s).
+Proof. exact successor_hidden. Qed.
+Print Assumptions C17_successor_hidden_while_parked.
+
+(* it stays parked until the flush of the predecessor's frame with shutdown = 1 (the frame after the one
+   that first showed the predecessor finished) *)
+Theorem C17_parked_until_predecessor_last_frame : forall s e s' a x,
+  step s e = Some s' -> lookup a (queue s) = Some x ->
+  lookup a (queue s') = Some x \/
+  (exists nrows rmf np, e = CT_FLUSHBAR a 1 nrows rmf np false) \/
+  (exists b id prio tot ex rmf np tr xr xv, e = CT_ADD b id prio tot ex (Some a) rmf np tr xr xv).
+Proof. exact queue_stable. Qed.
+Print Assumptions C17_parked_until_predecessor_last_frame.
+
+(* that flush: the successor takes the predecessor's priority (its position), is pushed with a sync request
+   so that it is in the heap for the next frame, and the predecessor leaves for good *)
+Theorem C17_promotion : forall s b nrows rmf np s' qb,
+  step s (CT_FLUSHBAR b 1 nrows rmf np false) = Some s' -> cycle_err s = false ->
+  lookup b (queue s) = Some qb ->
+  (exists wd ht rows n pc pushes rows' n',
+      ph s = Rendering wd ht rows n pc pushes /\
+      ph s' = Rendering wd ht rows' n' pc (pushes ++ [(qb, true)])) /\
+  prio_of s' qb = prio_of s b /\
+  lookup b (queue s') = None /\
+  In b (retired s').
+Proof. exact flush_promotes. Qed.
+Print Assumptions C17_promotion.
+
+(* the predecessor is never drawn again *)
+Theorem C17_predecessor_gone : forall p a d evs s b sh nrows rmf np err,
+  run (init_cst p a d) evs = Some s -> In b (retired s) -> step s (CT_FLUSHBAR b sh nrows rmf np err) = None.
+Proof. exact retired_never_flushed. Qed.
+Print Assumptions C17_predecessor_gone.
+
+(* ---- the part of the property that fails (D7) ---- *)
+Theorem C17_late_successor_never_displayed : forall p a d evs' evs s s' pre x,
+  run (init_cst p a d) evs = Some s -> lookup pre (queue s) = Some x -> In pre (retired s) ->
+  run s evs' = Some s' -> forallb (fun e => negb (parks_behind pre e)) evs' = true ->
+  lookup pre (queue s') = Some x /\ In pre (retired s').
+Proof. exact late_successor_stays_parked. Qed.
+Print Assumptions C17_late_successor_never_displayed.
+
+(* an accepted run that gets there: bar 0 (removed on completion) completes and leaves, then bar 1 is
+   created to queue after it *)
+Theorem C17_late_successor_refuted :
+  exists evs s, run (init_cst false true false) evs = Some s /\ lookup 0 (queue s) = Some 1 /\ In 0 (retired s).
+Proof.
+  exists
+    [CT_OP; CT_ADD 0 0 0 2 None None true false true 0 false; HM_PUSH 0 true 0 false 0;
+     CL_OP 0 (IncrInt64 2); BAR_OP 0 2 2 0 true false true 0;
+     CT_RENDERBEGIN; HM_SYNC 1 true 0; HM_ITERREQ true 1; CT_RENDERSIZE 80 24;
+     BAR_RENDER 0 2 2 0 false true 0; BAR_OP 0 2 2 0 true false true 1; HM_POP 0 0;
+     CT_FLUSHBAR 0 0 1 true false false; CT_FRAME 1 0; OUT [IRow 0 2 2 true false];
+     HM_PUSH 0 false 0 false 1;
+     CT_RENDERBEGIN; HM_SYNC 1 false 1; HM_ITERREQ true 1; CT_RENDERSIZE 80 24;
+     BAR_RENDER 0 2 2 0 false true 1; BAR_OP 0 2 2 0 true false true 2; HM_POP 0 0;
+     CT_FLUSHBAR 0 1 1 true false false; CT_FRAME 1 0; OUT [ICuu 1; IRow 0 2 2 true false];
+     CT_OP; CT_ADD 1 1 1 3 None (Some 0) false false true 0 false].
+  eexists. vm_compute. repeat split. left; reflexivity.
+Qed.
+Print Assumptions C17_late_successor_refuted.
+
+(* a second bar parked behind the same predecessor replaces the first in the queue *)
+Theorem C17_second_successor_overwrites :
+  exists evs s, run (init_cst false true false) evs = Some s /\ lookup 0 (queue s) = Some 2 /\
+                lookup 1 (bars s) <> None /\ ~ In 1 (places s).
+Proof.
+  exists
+    [CT_OP; CT_ADD 0 0 0 2 None None false false true 0 false; HM_PUSH 0 true 0 false 0;
+     CT_OP; CT_ADD 1 1 1 3 None (Some 0) false false true 0 false;
+     CT_OP; CT_ADD 2 2 2 3 None (Some 0) false false true 0 false].
+  eexists. vm_compute. repeat split; [discriminate|]. intros [H|[H|H]]; try discriminate H; exact H.
+Qed.
+Print Assumptions C17_second_successor_overwrites.
+
+(* non-vacuity of the promotion theorem: a successor created in time is promoted *)
+Example C17_nonvacuous :
+  exists s, run (init_cst false true false)
+    [CT_OP; CT_ADD 0 0 0 2 None None false false true 0 false; HM_PUSH 0 true 0 false 0;
+     CT_OP; CT_ADD 1 1 1 3 None (Some 0) false false true 0 false;
+     CL_OP 0 (IncrInt64 2); BAR_OP 0 2 2 0 true false false 0;
+     CT_RENDERBEGIN; HM_SYNC 1 true 0; HM_ITERREQ true 1; CT_RENDERSIZE 80 24;
+     BAR_RENDER 0 2 2 0 false true 0; BAR_OP 0 2 2 0 true false false 1; HM_POP 0 0;
+     CT_FLUSHBAR 0 0 1 false false false; CT_FRAME 1 0; OUT [IRow 0 2 2 true false];
+     HM_PUSH 0 false 0 false 1;
+     CT_RENDERBEGIN; HM_SYNC 1 false 1; HM_ITERREQ true 1; CT_RENDERSIZE 80 24;
+     BAR_RENDER 0 2 2 0 false true 1; BAR_OP 0 2 2 0 true false false 2; HM_POP 0 0;
+     CT_FLUSHBAR 0 1 1 false false false; CT_FRAME 1 0; OUT [ICuu 1; IRow 0 2 2 true false];
+     HM_PUSH 1 true 0 false 1] = Some s
+  /\ heap s = [1] /\ queue s = [] /\ retired s = [0] /\ prio_of s 1 = 0.
+Proof. eexists. vm_compute. repeat split. Qed.
